@@ -3,5 +3,176 @@ From Coq Require Import List NArith Bool Lia.
 From YQ Require Import Base.Str Spec.YamlMergeSpec Model.Alias.
 Import ListNotations.
 
-Lemma explode_scalar f a s : explode (S f) (Sc a s) = ROk (Sc false s).
+Definition entry_clean (kv : str * node) : bool := negb (is_merge (fst kv)) && clean (snd kv).
+Definition entries_clean (es : entries) : bool := forallb entry_clean es.
+
+Lemma clean_map a es : clean (Mp a es) = negb a && entries_clean es.
 Proof. reflexivity. Qed.
+
+Lemma rbind_ok {A B : Type} (o : res A) (f : A -> res B) (b : B) :
+  rbind o f = ROk b -> exists a, o = ROk a /\ f a = ROk b.
+Proof. destruct o; cbn [rbind]; intros H; try discriminate. eexists; split; [reflexivity | exact H]. Qed.
+
+(* ================================================================== *)
+(* 1. explode leaves no alias, no anchor, no merge key                 *)
+(* ================================================================== *)
+Section CleanStep.
+  Variable rec : node -> res node.
+  Hypothesis Hrec : forall t t', rec t = ROk t' -> clean t' = true.
+
+  Lemma map_res_clean l l' : map_res rec l = ROk l' -> forallb clean l' = true.
+  Proof.
+    revert l'. induction l as [|x r IH]; intros l' H; cbn [map_res] in H.
+    - injection H as <-. reflexivity.
+    - apply rbind_ok in H as (x' & Hx & H). apply rbind_ok in H as (r' & Hr & H). injection H as <-.
+      cbn [forallb]. rewrite (Hrec _ _ Hx), (IH _ Hr). reflexivity.
+  Qed.
+
+  Lemma map_entries_clean es es' :
+    has_merge es = false -> map_entries rec es = ROk es' -> entries_clean es' = true.
+  Proof.
+    revert es'. induction es as [|[k v] r IH]; intros es' Hm H; cbn [map_entries] in H.
+    - injection H as <-. reflexivity.
+    - apply rbind_ok in H as (v' & Hv & H). apply rbind_ok in H as (r' & Hr & H). injection H as <-.
+      unfold has_merge in Hm. cbn [existsb fst] in Hm. apply orb_false_iff in Hm as [Hk Hm].
+      unfold entries_clean. cbn [forallb]. unfold entry_clean at 1. cbn [fst snd].
+      rewrite Hk, (Hrec _ _ Hv). cbn. apply IH; assumption.
+  Qed.
+
+  Lemma replace_first_clean k v acc :
+    clean v = true -> entries_clean acc = true -> entries_clean (replace_first k v acc) = true.
+  Proof.
+    intros Hv. induction acc as [|[k' v'] r IH]; intros H; cbn [replace_first]; [reflexivity|].
+    unfold entries_clean in *. cbn [forallb] in H. apply andb_true_iff in H as [H1 H2].
+    destruct (str_eqb k k').
+    - cbn [forallb]. rewrite H2, andb_true_r. unfold entry_clean in *. cbn [fst snd] in *.
+      apply andb_true_iff in H1 as [H1 _]. rewrite H1, Hv. reflexivity.
+    - cbn [forallb]. rewrite H1. cbn. apply IH, H2.
+  Qed.
+
+  Lemma override_entry_clean texts key v start acc acc' :
+    is_merge key = false -> entries_clean acc = true ->
+    override_entry rec texts key v start acc = ROk acc' -> entries_clean acc' = true.
+  Proof.
+    intros Hk Hacc H. unfold override_entry in H. apply rbind_ok in H as (v' & Hv & H).
+    apply Hrec in Hv.
+    destruct (has_key key acc).
+    - injection H as <-. apply replace_first_clean; assumption.
+    - destruct (later_has texts (start + 2) key); injection H as <-; [exact Hacc|].
+      unfold entries_clean. rewrite forallb_app. fold (entries_clean acc). rewrite Hacc.
+      cbn [forallb]. unfold entry_clean. cbn [fst snd]. rewrite Hk, Hv. reflexivity.
+  Qed.
+
+  Lemma override_all_clean texts tes : forall start acc acc',
+    entries_clean tes = true -> entries_clean acc = true ->
+    override_all rec texts tes start acc = ROk acc' -> entries_clean acc' = true.
+  Proof.
+    induction tes as [|[k v] r IH]; intros start acc acc' Ht Hacc H; cbn [override_all] in H.
+    - injection H as <-. exact Hacc.
+    - apply rbind_ok in H as (acc1 & H1 & H).
+      unfold entries_clean in Ht. cbn [forallb] in Ht. apply andb_true_iff in Ht as [Hkv Ht].
+      unfold entry_clean in Hkv. cbn [fst snd] in Hkv. apply andb_true_iff in Hkv as [Hk _].
+      apply negb_true_iff in Hk.
+      eapply IH; [exact Ht | | exact H]. eapply override_entry_clean; eassumption.
+  Qed.
+
+  Lemma apply_alias_clean texts item idx acc acc' :
+    entries_clean acc = true -> apply_alias rec texts item idx acc = ROk acc' -> entries_clean acc' = true.
+  Proof.
+    intros Hacc H. destruct item as [a s|a l|a es|t]; cbn [apply_alias] in H; try (injection H as <-; exact Hacc).
+    apply rbind_ok in H as (t' & Ht & H). apply Hrec in Ht.
+    destruct t' as [a s|a l|a tes|t']; try discriminate.
+    rewrite clean_map in Ht. apply andb_true_iff in Ht as [_ Ht].
+    eapply override_all_clean; eassumption.
+  Qed.
+
+  Lemma apply_seq_rev_clean texts ritems : forall acc acc',
+    entries_clean acc = true -> apply_seq_rev rec texts ritems acc = ROk acc' -> entries_clean acc' = true.
+  Proof.
+    induction ritems as [|[j item] r IH]; intros acc acc' Hacc H; cbn [apply_seq_rev] in H.
+    - injection H as <-. exact Hacc.
+    - apply rbind_ok in H as (acc1 & H1 & H). eapply IH; [|exact H]. eapply apply_alias_clean; eassumption.
+  Qed.
+
+  Lemma recon_clean texts es : forall i acc acc',
+    entries_clean acc = true -> recon rec texts es i acc = ROk acc' -> entries_clean acc' = true.
+  Proof.
+    induction es as [|[k v] r IH]; intros i acc acc' Hacc H; cbn [recon] in H.
+    - injection H as <-. exact Hacc.
+    - apply rbind_ok in H as (acc1 & H1 & H). eapply IH; [|exact H].
+      destruct (is_merge k) eqn:Hk.
+      + destruct v as [a s|a l|a es'|t]; try (eapply apply_alias_clean; eassumption).
+        eapply apply_seq_rev_clean; eassumption.
+      + eapply override_entry_clean; eassumption.
+  Qed.
+
+  Lemma explode_step_clean t t' : explode_step rec t = ROk t' -> clean t' = true.
+  Proof.
+    destruct t as [a s|a l|a es|t0]; cbn [explode_step]; intros H.
+    - injection H as <-. reflexivity.
+    - apply rbind_ok in H as (l' & Hl & H). injection H as <-. cbn [clean negb andb].
+      eapply map_res_clean, Hl.
+    - destruct (has_merge es) eqn:Hm; apply rbind_ok in H as (es' & He & H); injection H as <-;
+        rewrite clean_map; cbn [negb andb].
+      + eapply recon_clean; [|exact He]. reflexivity.
+      + eapply map_entries_clean; eassumption.
+    - eapply Hrec, H.
+  Qed.
+End CleanStep.
+
+Theorem explode_clean fuel : forall t t', explode fuel t = ROk t' -> clean t' = true.
+Proof.
+  induction fuel as [|f IH]; intros t t' H; cbn [explode] in H; [discriminate|].
+  eapply explode_step_clean; [exact IH | exact H].
+Qed.
+
+(* ================================================================== *)
+(* 2. a tree without aliases and merge keys only loses its anchors     *)
+(* ================================================================== *)
+Section PlainStep.
+  Variable rec : node -> res node.
+  Hypothesis Hrec : forall t t', plain t = true -> rec t = ROk t' -> t' = strip_anchors t.
+
+  Lemma map_res_plain l l' : forallb plain l = true -> map_res rec l = ROk l' -> l' = map strip_anchors l.
+  Proof.
+    revert l'. induction l as [|x r IH]; intros l' Hp H; cbn [map_res] in H.
+    - injection H as <-. reflexivity.
+    - cbn [forallb] in Hp. apply andb_true_iff in Hp as [Hx Hr].
+      apply rbind_ok in H as (x' & Ex & H). apply rbind_ok in H as (r' & Er & H). injection H as <-.
+      cbn [map]. rewrite (Hrec _ _ Hx Ex), (IH _ Hr Er). reflexivity.
+  Qed.
+
+  Lemma map_entries_plain es es' :
+    forallb (fun kv => negb (is_merge (fst kv)) && plain (snd kv)) es = true ->
+    map_entries rec es = ROk es' -> es' = map (fun kv => (fst kv, strip_anchors (snd kv))) es.
+  Proof.
+    revert es'. induction es as [|[k v] r IH]; intros es' Hp H; cbn [map_entries] in H.
+    - injection H as <-. reflexivity.
+    - cbn [forallb fst snd] in Hp. apply andb_true_iff in Hp as [Hkv Hr]. apply andb_true_iff in Hkv as [_ Hv].
+      apply rbind_ok in H as (v' & Ev & H). apply rbind_ok in H as (r' & Er & H). injection H as <-.
+      cbn [map fst snd]. rewrite (Hrec _ _ Hv Ev), (IH _ Hr Er). reflexivity.
+  Qed.
+
+  Lemma plain_no_merge es :
+    forallb (fun kv => negb (is_merge (fst kv)) && plain (snd kv)) es = true -> has_merge es = false.
+  Proof.
+    induction es as [|[k v] r IH]; intros H; [reflexivity|].
+    cbn [forallb fst snd] in H. apply andb_true_iff in H as [Hkv Hr]. apply andb_true_iff in Hkv as [Hk _].
+    unfold has_merge. cbn [existsb fst]. apply negb_true_iff in Hk. rewrite Hk. apply IH, Hr.
+  Qed.
+
+  Lemma explode_step_plain t t' : plain t = true -> explode_step rec t = ROk t' -> t' = strip_anchors t.
+  Proof.
+    destruct t as [a s|a l|a es|t0]; cbn [explode_step plain strip_anchors]; intros Hp H; try discriminate.
+    - injection H as <-. reflexivity.
+    - apply rbind_ok in H as (l' & Hl & H). injection H as <-. f_equal. apply map_res_plain; assumption.
+    - rewrite (plain_no_merge _ Hp) in H. apply rbind_ok in H as (es' & He & H). injection H as <-.
+      f_equal. apply map_entries_plain; assumption.
+  Qed.
+End PlainStep.
+
+Theorem explode_plain fuel : forall t t', plain t = true -> explode fuel t = ROk t' -> t' = strip_anchors t.
+Proof.
+  induction fuel as [|f IH]; intros t t' Hp H; cbn [explode] in H; [discriminate|].
+  eapply explode_step_plain; [exact IH | exact Hp | exact H].
+Qed.
